@@ -54,4 +54,7 @@ Expected(c) ==
       [] c.op = "rc_string" -> [zone |-> "accept", y |-> RCStr(c.str, c.alphabet, c.comp)]
       [] c.op = "chunk" -> [zone |-> "accept", y |-> Chunk(c.xs, c.size, c.ov)]
       [] c.op = "unchunk" -> [zone |-> "accept", y |-> Unchunk(c.xs, c.size, c.ov)]
+      \* one long sequence (chromosome scale): the event carries the lengths only; y = <<number of chunks, positions returned,
+      \* returned positions equal the input's (compared by the driver)>>; the sequence length is c.size2 (xs would not fit)
+      [] c.op = "unchunk_long" -> [zone |-> "accept", y |-> <<NChunks(c.longlen, c.size, c.ov), Covered(c.longlen, c.size, c.ov), 1>>]
 =============================================================================
